@@ -2,6 +2,7 @@
 """print the prompt for a refactoring sub-agent: property text + its scratch worktree; nothing from /verif"""
 import json, sys
 pid, wt = sys.argv[1], sys.argv[2]
+EMPH = sys.argv[3] if len(sys.argv) > 3 else ""
 for l in open('/verif/properties.jsonl'):
     p = json.loads(l)
     if p['id'] == pid:
@@ -15,7 +16,7 @@ PROPERTY {p['id']}: {p['title']}
 Relevant source files: {files}
 The code that implements it: {mechs}
 
-YOUR TASK: produce SIX independent, realistic, BEHAVIOUR-PRESERVING refactorings of the library code that implements this property - the kind of clean-up a maintainer would merge: e.g. rewrite an `if let`/`match`/early-return in another form, turn a `for` loop into a `while let` or an iterator chain (or back), introduce or remove a temporary variable, rename locals, swap the operands of a comparison (`a < b` <-> `b > a`), reorder two independent statements, extract a small private helper function or inline one, replace a std call by an equivalent one (`is_some()` vs `!= None`, `get(i).copied()` vs indexing under a check that already exists, `push`+`extend`, `iter().position` vs a manual loop), restructure an `if a && b` into nested ifs, etc. Each refactoring must change between 3 and 40 lines, must touch code under {wt}/src that actually takes part in the property (spread the six over DIFFERENT functions where possible), and MUST NOT change observable behaviour in any way (same results, same panics, same errors, same iteration order, for every input).
+YOUR TASK: produce SIX independent, realistic, BEHAVIOUR-PRESERVING refactorings of the library code that implements this property - the kind of clean-up a maintainer would merge: e.g. rewrite an `if let`/`match`/early-return in another form, turn a `for` loop into a `while let` or an iterator chain (or back), introduce or remove a temporary variable, rename locals, swap the operands of a comparison (`a < b` <-> `b > a`), reorder two independent statements, extract a small private helper function or inline one, replace a std call by an equivalent one (`is_some()` vs `!= None`, `get(i).copied()` vs indexing under a check that already exists, `push`+`extend`, `iter().position` vs a manual loop), restructure an `if a && b` into nested ifs, etc. """ + EMPH + f""" Each refactoring must change between 3 and 40 lines, must touch code under {wt}/src that actually takes part in the property (spread the six over DIFFERENT functions where possible), and MUST NOT change observable behaviour in any way (same results, same panics, same errors, same iteration order, for every input).
 For each refactoring k = 1..6:
  1. start from a clean tree (`git checkout -- src`), make the change;
  2. check `cargo build --offline` and `cargo build --offline --all-features`;
